@@ -1,6 +1,7 @@
 """C12 — command line: dispatch shadow-freedom, handler/flag tables, argv index safety, rejection means no run,
 repeat/shuffle value skeletons. DESIGN.md section 4, C12."""
 import re
+import itertools
 from .common import *
 from cpv.ceval import Evaluator, Unknown
 
@@ -198,19 +199,61 @@ def check(ctx, run):
     dn = prog.fn(CLS + "::addGroupDotNameFilter")
     run.analysed(dn)
     pn = [p["name"] for p in dn.params]
-    for p in enumerate_paths(dn):
-        val = p.val()
-        if p.ret is not None and const_value(dn, dn.node(p.ret.get("value"))) == 0:
-            continue
-        names = [render(dn, c) for c in path_calls(prog, dn, p)]
-        st = [x for x in names if x.endswith("->strictMatching()")]
-        iv = [x for x in names if x.endswith("->invertMatching()")]
-        ok = (len(st) == (2 if val.get(pn[4]) else 0)) and (len(iv) == (2 if val.get(pn[5]) else 0)) and len(set(st)) == len(st) and len(set(iv)) == len(iv)
-        asg = sorted(l for l, r, n in assignments(dn, p))
-        ok = ok and asg == ["groupFilters_", "nameFilters_"]
-        run.ob("R2", "addGroupDotNameFilter [%s]" % p.describe(dn), dn.site, ok, witness={"strict": st, "invert": iv, "pushed": asg})
-    lits = [lit_of_simplestring(dn, dn.args(c)[3]) if False else render(dn, dn.args(c)[3]) for c in calls_to(prog, dn, CLS + "::getParameterField")]
-    run.ob("R2", "addGroupDotNameFilter slices with the literal it was given", dn.site, lits == [pn[3]], witness=lits)
+
+    def fold_dot(text, strict, exclude):
+        log = []
+        state = {}
+
+        def split(ev_, *a_):
+            t = a_[0][1] if isinstance(a_[0], tuple) else None
+            d = a_[1][1] if len(a_) > 1 and isinstance(a_[1], tuple) else None
+            if t is None or not d:
+                return None
+            parts, rest = [], t
+            while d in rest:
+                i_ = rest.index(d) + len(d)
+                parts.append(rest[:i_])
+                rest = rest[i_:]
+            if rest:
+                parts.append(rest)
+            state["parts"] = parts
+            return 0
+        split.wants_ev = True
+        GL, NL = 500, 600
+        hooks = string_hooks({CLS + "::getParameterField": lambda *a_: (log.append(("field", a_[-1])), ("str", text))[1], "SimpleString::split": split,
+                              "SimpleStringCollection::size": lambda *a_: len(state.get("parts", [])),
+                              "SimpleStringCollection::operator[]": lambda *a_: ("str", state["parts"][a_[-1]]) if isinstance(a_[-1], int) and 0 <= a_[-1] < len(state.get("parts", [])) else None,
+                              "SimpleString::subString": lambda o, b_, n_=None: ("str", o[1][b_:] if n_ is None else o[1][b_:b_ + n_]) if isinstance(o, tuple) and isinstance(b_, int) else None,
+                              "TestFilter::strictMatching": lambda *a_: (log.append(("strict", a_[0])), 0)[1], "TestFilter::invertMatching": lambda *a_: (log.append(("invert", a_[0])), 0)[1],
+                              "TestFilter::add": lambda *a_: (log.append(("add", a_[0], a_[1])), a_[0])[1]})
+        ev = Evaluator(prog, dn, env={"groupFilters_": GL, "nameFilters_": NL, pn[0]: 3, pn[1]: 7, pn[2]: 1, pn[3]: ("str", "-t"), pn[4]: strict, pn[5]: exclude}, calls=hooks)
+        ev.pass_object = True
+        ev.run_blocks(dn.entry, max_steps=600)
+        news = [t[1] for t in ev.trace if t[0].startswith("new TestFilter")]
+        return getattr(ev, "ret", None), news, log, ev.env.get("groupFilters_"), ev.env.get("nameFilters_")
+    try:
+        for strict, exclude in itertools.product((0, 1), (0, 1)):
+            r, news, log, gl, nl = fold_dot("grp.name", strict, exclude)
+            why = ""
+            texts = [n_[1:] for n_ in news]
+            if r != 1 or texts != [[("str", "grp")], [("str", "name")]]:
+                why = "returns %s and creates filters from %s; expected true and (\"grp\"), (\"name\")" % (r, texts)
+            else:
+                g_, n2 = news[0][0], news[1][0]
+                for o in (g_, n2):
+                    if log.count(("strict", o)) != (1 if strict else 0) or log.count(("invert", o)) != (1 if exclude else 0):
+                        why = "filter modifiers applied as %s for strict=%d exclude=%d" % ([x for x in log if x[0] in ("strict", "invert")], strict, exclude)
+                if not why and (gl != g_ or nl != n2 or ("add", g_, 500) not in log or ("add", n2, 600) not in log):
+                    why = "the filters are not pushed in front of their own lists (group list %s, name list %s, %s)" % (gl, nl, [x for x in log if x[0] == "add"])
+                if not why and [x[1] for x in log if x[0] == "field"] != [("str", "-t")]:
+                    why = "the value is sliced with %s, not with the option literal it was given" % ([x[1] for x in log if x[0] == "field"],)
+            run.ob("R2", "addGroupDotNameFilter folded [strict=%d exclude=%d] on \"grp.name\"" % (strict, exclude), dn.site, not why, witness=why or "ok", what=why)
+        for text in ("nodot", "a.b.c", ""):
+            r, news, log, gl, nl = fold_dot(text, 1, 1)
+            okr = r == 0 and not news and (gl, nl) == (500, 600)
+            run.ob("R2", "addGroupDotNameFilter folded on %r: rejected, no filter added" % text, dn.site, okr, witness={"returns": r, "filters": len(news)})
+    except Unknown as u:
+        run.broke("C12.R2: addGroupDotNameFilter cannot be folded: %s" % u)
     for nm in ("TEST(", "IGNORE_TEST("):
         then = branch_of.get(("prefix", nm))
         cs = handler_call(then) if then is not None else []
